@@ -5,7 +5,6 @@
 using namespace c11;
 
 static Arena AR, KEY; // the array; bsearch's key object
-static const int SIZES[7] = {1, 2, 3, 4, 8, 12, 32};
 
 // element: byte0 = key<<4 | tag (tag = original index, unique), byte j>0 = f(tag, j): a torn or mixed-up element is recognisable
 static void mk_elem(uint8_t *e, int size, int key, int tag)
@@ -172,19 +171,36 @@ static int bcmp_(const void *a, const void *b)
 
 MC_INIT
 {
-    // (1) qsort: every array of length 0..6 (7) over keys {0,1,2} x element size x guard placement x comparator style
+    // (1) qsort: every array of length 0..6 (8) over keys {0,1,2} x element size x guard placement x comparator style
     //     x every pivot sequence
     mc::add_check("qsort_all_arrays_all_pivots", [] {
         AR.init(0xA5);
-        int N = mc::thorough() ? 8 : 6;
-        int narr = 0, pw = 1;
-        for (int n = 0; n <= N; n++, pw *= 3)
-            narr += pw;
-        int c0 = mc::choose(narr * 7 * 4);
-        int ai = c0 / 28, size = SIZES[(c0 / 4) % 7], pl = (c0 / 2) % 2, style = c0 % 2;
-        int n = 0;
-        for (pw = 1; ai >= pw; pw *= 3, n++)
-            ai -= pw;
+        // (array length, array code, element size): EVERY size 1..32 at every length (`full` = longest length that gets
+        // all sizes; longer arrays, if the length bound is ever raised above it, get {1,2,3,4,8,12,17,31,32})
+        struct Combo
+        {
+            uint8_t n, size;
+            uint16_t code;
+        };
+        static std::vector<Combo> combos;
+        if (combos.empty())
+        {
+            int N = mc::thorough() ? 8 : 6, full = mc::thorough() ? 8 : 6;
+            static const int RED[9] = {1, 2, 3, 4, 8, 12, 17, 31, 32};
+            for (int n = 0, pw = 1; n <= N; n++, pw *= 3)
+                for (int code = 0; code < pw; code++)
+                {
+                    if (n <= full)
+                        for (int sz = 1; sz <= 32; sz++)
+                            combos.push_back(Combo{(uint8_t)n, (uint8_t)sz, (uint16_t)code});
+                    else
+                        for (int sz : RED)
+                            combos.push_back(Combo{(uint8_t)n, (uint8_t)sz, (uint16_t)code});
+                }
+        }
+        int c0 = mc::choose((int)combos.size() * 4);
+        const Combo &cb = combos[c0 / 4];
+        int ai = cb.code, size = cb.size, pl = (c0 / 2) % 2, style = c0 % 2, n = cb.n;
         Q.n = n;
         Q.size = size;
         Q.style = style;
@@ -271,18 +287,18 @@ MC_INIT
             std::string k;
             for (int x : v)
                 k += (char)('0' + x);
-            mc::describe("bsearch in sorted [%s]: keys -1..4 x element sizes 1,2,3,4,8,12,32 x before/after guard x 2 comparator styles", k.c_str());
+            mc::describe("bsearch in sorted [%s]: keys -1..4 x every element size 1..32 x before/after guard x 2 comparator styles", k.c_str());
         }
         if (B.n >= 2)
             mc::nontrivial();
         uint64_t calls = 0;
         uint8_t data[10 * 32];
-        for (int si = 0; si < 7; si++)
+        for (int si = 1; si <= 32; si++)
             for (int pl = AFTER; pl <= BEFORE; pl++)
                 for (int style = 0; style < 2; style++)
                     for (int want = -1; want <= 4; want++)
                     {
-                        B.size = SIZES[si];
+                        B.size = si;
                         B.style = style;
                         B.want = want;
                         B.ncalls = 0;
